@@ -53,3 +53,13 @@ m('M33', PAR, "                index = f'[t+{self.index_}]'", "                i
 m('M34', MOD, "                    if errors == 'raise':\n                        self.status[t] = SolutionStatus.ERROR.value\n                        self.iterations[t] = iteration\n\n                    raise SolutionError(\n                        f'Error after", "                    if errors == 'raise':\n                        self.status[t] = SolutionStatus.ERROR.value\n                        self.iterations[t - 1] = iteration\n\n                    raise SolutionError(\n                        f'Error after", ['C04', 'C06'], 'error bookkeeping lands on the previous period')
 m('M35', MOD, "        # Error if `min_iter` exceeds `max_iter`\n        if min_iter > max_iter:\n            raise ValueError(\n                f'Value of `min_iter` ({min_iter}) '\n                f'cannot exceed value of `max_iter` ({max_iter})'\n            )\n\n        # Error if the period", "        # Error if the period", ['C04', 'C02'], 'min_iter guard removed from solve_t (max_iter loop simply never converges)')
 m('M36', MOD, "            for name in self.endogenous:\n                self.__dict__['_' + name][t] = self.__dict__['_' + name][t + offset]", "            for name in self.names:\n                self.__dict__['_' + name][t] = self.__dict__['_' + name][t + offset]", ['C04'], 'offset copy overwrites exogenous variables too')
+
+# ---- tracer (C17)
+m('M70', EXT, "        return super().solve_t(t, *args, trace=trace, reset=reset, **kwargs)", "        return super().solve_t(t, *args, reset=reset, **kwargs)", ['C17'], 'solve_t does not forward trace')
+m('M71', EXT, "        super()._evaluate(\n            t, *args, trace=trace, reset=reset, iteration=iteration, **kwargs\n        )", "        super()._evaluate(\n            t, *args, trace=trace, reset=reset, **kwargs\n        )", ['C17'], '_evaluate wrapper drops iteration')
+m('M72', EXT, "        if trace:\n            self.trace_t(t, 'start', *args, trace=trace, reset=reset, **kwargs)", "        if True:\n            self.trace_t(t, 'start', *args, trace=trace, reset=reset, **kwargs)", ['C17'], 'start recorded with tracing off')
+m('M73', EXT, "            self.trace_t(t, iteration, *args, trace=trace, reset=reset, **kwargs)", "            self.trace_t(t, iteration - 1, *args, trace=trace, reset=reset, **kwargs)", ['C17'], 'pass label off by one')
+m('M75', EXT, "        super().solve_t_after(\n            t, *args, trace=trace, reset=reset, iteration=iteration, **kwargs\n        )\n\n        # Store final results\n        if trace:\n            self.trace_t(t, 'end', *args, trace=trace, reset=reset, **kwargs)", "        # Store final results\n        if trace:\n            self.trace_t(t, 'end', *args, trace=trace, reset=reset, **kwargs)\n\n        super().solve_t_after(\n            t, *args, trace=trace, reset=reset, iteration=iteration, **kwargs\n        )", ['C17'], 'end recorded before the parent post-hook')
+m('M76', EXT, "        results = np.array([[self[x][t]] for x in names])", "        results = np.array([[self[x][t - 1 if t > 0 else t]] for x in names])", ['C17'], 'trace reads the previous period')
+m('M77', EXT, "        if self[self.TRACE_NAME][t].is_empty() or reset:", "        if self[self.TRACE_NAME][t].is_empty() or reset or label == 'start':", ['C17'], 'every call restarts the trace (repeated solves lose history)')
+m('M78', EXT, "        if trace:\n            self.trace_t(t, 'before', *args, trace=trace, reset=reset, **kwargs)", "        if trace:\n            self.trace_t(t, 'before', *args, trace=trace, reset=reset, **kwargs)\n            for _x in self.endogenous:\n                if not np.isfinite(self[_x][t]):\n                    self[_x][t] = 0.0", ['C17'], 'tracing sanitises non-finite start values')
